@@ -335,16 +335,27 @@ te_curve!(TE257A, FDT257, F59, 4, m!("15"), m!("256"), m!("19"), m!("1"), m!("16
 /// all elements of a toy prime field
 pub fn all_elems<F: PrimeField>() -> Vec<F> {
     let p = F::MODULUS.as_ref()[0];
-    (0..p).map(F::from).collect()
+    (0..p).map(small::<F>).collect()
+}
+/// `s mod p` by double-and-add from `one` (`F::from(u64)` panics on over-limbed configurations)
+pub fn small<F: PrimeField>(s: u64) -> F {
+    let mut acc = F::zero();
+    for bit in (0..64).rev() {
+        acc.double_in_place();
+        if (s >> bit) & 1 == 1 { acc += F::one(); }
+    }
+    acc
 }
 pub fn rand_prime<F: PrimeField>(rng: &mut Rng) -> F {
-    let bytes: Vec<u8> = (0..F::MODULUS.as_ref().len() * 8 + 8).map(|_| rng.next() as u8).collect();
-    F::from_le_bytes_mod_order(&bytes)
+    let c = small::<F>(1 << 32);
+    let mut acc = F::zero();
+    for _ in 0..(F::MODULUS.as_ref().len() * 2 + 1) { acc = acc * c + small::<F>(rng.next() >> 32); }
+    acc
 }
 /// deterministic edge elements of a prime field, then `extra` random ones
 pub fn edge_prime<F: PrimeField>(rng: &mut Rng, extra: usize) -> Vec<F> {
     let bits = F::MODULUS_BIT_SIZE as u64;
-    let two = F::from(2u64);
+    let two = small::<F>(2);
     let half = two.inverse().unwrap_or(F::zero());
     let mut v = vec![F::zero(), F::one(), -F::one(), two, -two, half, -half];
     // powers of two and their neighbours below the modulus: byte and limb boundaries, the top bit
@@ -357,7 +368,7 @@ pub fn edge_prime<F: PrimeField>(rng: &mut Rng, extra: usize) -> Vec<F> {
             v.push(t); v.push(t - F::one()); v.push(t + F::one());
         }
     }
-    for s in [3u64, 0x55, 0x7f, 0x80, 0xff, 0x100] { v.push(F::from(s)); v.push(-F::from(s)); }
+    for s in [3u64, 0x55, 0x7f, 0x80, 0xff, 0x100] { v.push(small::<F>(s)); v.push(-small::<F>(s)); }
     for _ in 0..extra { v.push(rand_prime::<F>(rng)); }
     let mut w: Vec<F> = Vec::new();
     for x in v { if !w.contains(&x) { w.push(x); } }
